@@ -3,6 +3,8 @@ package checks
 import (
 	"errors"
 	"fmt"
+	"os"
+	"path/filepath"
 	"strings"
 	"sync"
 	"testing"
@@ -77,11 +79,26 @@ type C06Scenario struct {
 	Tape       []uint8        `json:"tape"`
 	TapeSeed   uint64         `json:"tape_seed"`
 	Calm       int            `json:"calm"`
+	// Real, when set, replaces the stub history by a history on the real cdb / rocksdb drivers
+	// (queries through ServeDNS are the readers), judged by the same monitor.
+	Real *SrvScenario `json:"real,omitempty"`
 }
 
 var c06Delays = []int{0, 0, 0, 7, 23, 61, 97, 181}
 
 func drawC06(rt *rapid.T, tier string) C06Scenario {
+	share := 12
+	if tier == "thorough" {
+		share = 3
+	}
+	if rapid.IntRange(0, share-1).Draw(rt, "real") == 0 {
+		o := srvDrawOpts{backends: []string{"cdb", "cdb", "rdb1", "rdb2"}, maxClients: 3, maxQueries: 4, maxOps: 5,
+			faults: []string{"missing", "garbage", "nokey", "inject"}}
+		sc := drawSrv(rt, o)
+		pos := rapid.IntRange(0, len(sc.Ops)).Draw(rt, "close_at")
+		sc.Ops = append(append([]SrvOp{}, sc.Ops[:pos]...), SrvOp{Kind: "close"})
+		return C06Scenario{Real: &sc}
+	}
 	sc := C06Scenario{
 		AlwaysNew: rapid.Bool().Draw(rt, "always_new"),
 		TimeoutMs: 50,
@@ -115,6 +132,9 @@ func drawC06(rt *rapid.T, tier string) C06Scenario {
 }
 
 func summaryC06(sc C06Scenario) interface{} {
+	if sc.Real != nil {
+		return map[string]interface{}{"real_backend": summarySrv(*sc.Real)}
+	}
 	var ops []string
 	for i, o := range sc.Reloads {
 		if i == sc.ShutdownAt {
@@ -136,7 +156,65 @@ func summaryC06(sc C06Scenario) interface{} {
 	return map[string]interface{}{"operator": ops, "readers": rd, "via_chan": sc.ViaChan, "tape_len": len(sc.Tape)}
 }
 
+// runC06Real judges a history on the real storage drivers with the same life-cycle monitor.
+func runC06Real(t *testing.T, sc *SrvScenario, keep bool) *core.Result {
+	res := &core.Result{Population: "real-backend/" + srvPopulation(sc)}
+	logDirs := func() int {
+		m, _ := filepath.Glob(filepath.Join(os.TempDir(), "rdb-log-*"))
+		return len(m)
+	}
+	before := logDirs()
+	h := runSrv(t, sc, keep, res, nil)
+	if res.HarnessErr != "" || h.Sim == nil {
+		return res
+	}
+	// C06 judges the life cycle only: drop what the shared harness reported for other properties
+	kept := res.Violations[:0]
+	for _, v := range res.Violations {
+		if v.Kind == "deadlock" || v.Kind == "panic" {
+			kept = append(kept, v)
+		}
+	}
+	res.Violations = kept
+	for _, v := range h.Mon.Snapshot() {
+		kind := strings.SplitN(v, ":", 2)[0]
+		sig := kind
+		for _, b := range h.Mon.Backends {
+			if strings.Contains(v, fmt.Sprintf("b%d(", b.ID)) {
+				ctx := b.ClosedCtx
+				if i := strings.Index(ctx, ":"); i >= 0 {
+					ctx = ctx[i+1:]
+				}
+				sig = kind + "|real|closed-during=" + ctx
+			}
+		}
+		res.Add(kind, sig, v)
+	}
+	if h.Closed && h.RunErr == nil {
+		if leaks := h.Mon.Leaks(nil); len(leaks) > 0 {
+			res.Add("leak", "leak|real", fmt.Sprintf("back ends never closed after shutdown and quiescence: %d of %d", len(leaks), len(h.Mon.Backends)))
+		}
+		// a failed OpenSecondary leaves its (empty) log directory behind: that is a stray temp
+		// directory, not a back end, and is not what this property is about
+		failedOpens := 0
+		for _, o := range h.Ops {
+			if o.Op.Kind == "reload" && o.Op.Full && o.Op.Fault == "garbage" && o.Inv > 0 {
+				failedOpens++
+			}
+		}
+		if after := logDirs(); after > before+failedOpens {
+			res.Add("leak", "leak|rocksdb-log-dir", fmt.Sprintf("%d RocksDB secondary log director(ies) left behind beyond the %d of failed opens: a secondary instance was never closed", after-before, failedOpens))
+		}
+		res.Probe("real_backend_history_with_shutdown")
+	}
+	res.Nontrivial = h.Mon.Reloads > 0 || res.Switches > 0
+	return res
+}
+
 func runC06(t *testing.T, sc C06Scenario, keep bool) *core.Result {
+	if sc.Real != nil {
+		return runC06Real(t, sc.Real, keep)
+	}
 	res := &core.Result{}
 	opt := sched.Options{Tape: sc.Tape, TapeSeed: sc.TapeSeed, Calm: sc.Calm, KeepSchedule: keep, MaxSteps: 20000}
 	sched.Bubble(t, opt, func(s *sched.Sim) {
